@@ -245,6 +245,52 @@ func c12Body(c *ev.Ctx) {
 			c.Violation("nondeterministic|"+k, fmt.Sprintf("%d different constraint systems for %s: %s", len(m), k, strings.Join(desc, "; ")), rep)
 		}
 	}
+	// histories: several dimensions compiled one after the other in one process must each give
+	// what a fresh process gives (dimension pairs whose decimal digits concatenate alike included)
+	{
+		seq := [][2]int{{1, 12}, {11, 2}, {2, 1}, {1, 2}, {12, 1}, {1, 12}}
+		if !quick {
+			seq = append(seq, [2]int{21, 1}, [2]int{2, 11}, [2]int{1, 1}, [2]int{11, 1})
+		}
+		var arg []string
+		for _, dm := range seq {
+			arg = append(arg, fmt.Sprintf("%d,%d", dm[0], dm[1]))
+		}
+		for _, mode := range []string{"insertion", "deletion"} {
+			so, err := runMapChild(&mapRun{What: "buildseq", Mode: mode, D: 0, B: 0, Seed: 2, Procs: 16, Extra: []string{strings.Join(arg, ";")}})
+			if err != nil {
+				c.HarnessError("%v", err)
+			}
+			fresh := map[[2]int]string{}
+			var fmu sync.Mutex
+			var uniq [][2]int
+			for _, dm := range seq {
+				if _, ok := fresh[dm]; !ok {
+					fresh[dm] = ""
+					uniq = append(uniq, dm)
+				}
+			}
+			par.For(len(uniq), func(i int) {
+				o, err := runMapChild(&mapRun{What: "build", Mode: mode, D: uniq[i][0], B: uniq[i][1], Seed: 2, Procs: 16})
+				if err != nil {
+					c.HarnessError("%v", err)
+				}
+				fmu.Lock()
+				if o.Error != "" {
+					fresh[uniq[i]] = "error: " + o.Error
+				} else {
+					fresh[uniq[i]] = o.Digests[0]
+				}
+				fmu.Unlock()
+			}, nil)
+			for i, dm := range seq {
+				if i < len(so.Digests) && so.Digests[i] != fresh[dm] {
+					c.Violation(fmt.Sprintf("history-dependent|%s d=%d b=%d", mode, dm[0], dm[1]), fmt.Sprintf("%s (%d,%d) compiled as step %d of the sequence %s in one process gives a different constraint system than in a fresh process", mode, dm[0], dm[1], i+1, strings.Join(arg, " ")), mapRun{What: "buildseq", Mode: mode, Seed: 2, Procs: 16, Extra: []string{strings.Join(arg, ";")}})
+				}
+			}
+			done++
+		}
+	}
 	// one public input: witness, verifying key, Solidity
 	var wg sync.WaitGroup
 	for _, mode := range []string{"insertion", "deletion"} {
@@ -318,6 +364,6 @@ func c12Body(c *ev.Ctx) {
 	c.Set("exhaustive", done == len(runs))
 	c.Sample(runs[0])
 	c.Sample(runs[len(runs)/2])
-	c.Set("rule", "each evaluation = one compilation in a fresh process built with a patched runtime whose map-iteration start position is VERIF_MAPSEED; product of (mode, dims) x construction path {BuildR1CS*, Setup*, Import*Setup, CLI r1cs} x seed x GOMAXPROCS {1,2,16} (+ runtime's own randomness, + 3 repetitions in one process); oracle: one SHA-256 of ConstraintSystem.WriteTo per (mode, dims); one public input in system, witness, verifying key and Solidity; deletion depth >= 32 refused, 31 builds; distinct = (seed, mode, dims) combinations")
+	c.Set("rule", "each evaluation = one compilation in a fresh process built with a patched runtime whose map-iteration start position is VERIF_MAPSEED; product of (mode, dims) x construction path {BuildR1CS*, Setup*, Import*Setup, CLI r1cs} x seed x GOMAXPROCS {1,2,16} (+ runtime's own randomness, + 3 repetitions in one process, + a sequence of different dimensions compiled in one process vs. fresh processes); oracle: one SHA-256 of ConstraintSystem.WriteTo per (mode, dims); one public input in system, witness, verifying key and Solidity; deletion depth >= 32 refused, 31 builds; distinct = (seed, mode, dims) combinations")
 	c.Assume("map-iteration order is the only hidden nondeterminism of the goroutine-free compile path; seeds are uniform across iteration sites; maps larger than 8 buckets are covered for the listed spread of seeds only")
 }
